@@ -23,7 +23,7 @@ ASSUMPTIONS = ['table rules are deterministic, so BFS in the digraph of successf
 BUDGET = {'quick': 150, 'thorough': 1500}
 CHUNK = {'quick': 30, 'thorough': 120}
 REQUIRED = ['table_runs_checked', 'recovery_rule_runs_checked', 'trial_thresholds_checked', 'contact_steps_checked', 'sis_trial_counts_checked',
-            'enum_leaves', 'enum_laws_compared', 'perc_edges_checked', 'perc_big_graphs']
+            'enum_leaves', 'enum_laws_compared', 'enum_cases_read_off_full_data', 'perc_edges_checked', 'perc_big_graphs']
 ENUM_SIMS = ['basic_discrete_SIR', 'percolation_based_discrete_SIR', 'basic_discrete_SIS', 'discrete_SIR']
 
 
@@ -74,7 +74,7 @@ def gen_cases(tier, seed):
                             tmax = tmin + (3 if nn <= 3 else 2)
                         else:
                             tmax = 'inf' if k % 2 else tmin + 2
-                        out.append({'kind': 'enum', 'sim': sim, 'graph': dict(desc), 'p': p, 'I0': list(I0), 'R0': R0, 'tmin': tmin, 'tmax': tmax,
+                        out.append({'kind': 'enum', 'sim': sim, 'graph': dict(desc), 'p': p, 'I0': list(I0), 'R0': R0, 'tmin': tmin, 'tmax': tmax, 'full': (k % 3 == 2),
                                     'seed': case_seed(seed, PID + 'enum', k)})
     return out
 
@@ -311,14 +311,37 @@ def run_enum(case, res):
     p, tmin, tmax = case['p'], case['tmin'], _tmax(case)
     name = case['sim']
 
+    full = bool(case.get('full'))
+    fkw = {'return_full_data': True} if full else {}
+    if full:
+        bump(res, 'enum_cases_read_off_full_data')
+    nodes = list(G)
+
+    def rows_from_full(sim):
+        # the step-by-step rows the plain arrays would hold, read off the per-node histories: one row per step from tmin until the
+        # horizon or the step at which nobody is infected any more
+        t_end = tmax if tmax != float('inf') else int(sim.t()[-1])
+        rows = []
+        tt = tmin
+        while tt <= t_end:
+            st = sim.get_statuses(nodes, tt)
+            cnt = [sum(1 for u in nodes if st[u] == x) for x in (('S', 'I') if name == 'basic_discrete_SIS' else ('S', 'I', 'R'))]
+            rows.append(tuple([tt] + cnt))
+            if cnt[1] == 0:
+                break
+            tt += 1
+        return tuple(rows)
+
     def run(d):
         with rngprobe.monitor(driver=d):
             if name == 'basic_discrete_SIS':
-                out = EoN.basic_discrete_SIS(G, p, initial_infecteds=list(I0), tmin=tmin, tmax=tmax)
+                out = EoN.basic_discrete_SIS(G, p, initial_infecteds=list(I0), tmin=tmin, tmax=tmax, **fkw)
             elif name == 'discrete_SIR':
-                out = EoN.discrete_SIR(G, args=(p,), initial_infecteds=list(I0), initial_recovereds=list(R0) or None, tmin=tmin, tmax=tmax)
+                out = EoN.discrete_SIR(G, args=(p,), initial_infecteds=list(I0), initial_recovereds=list(R0) or None, tmin=tmin, tmax=tmax, **fkw)
             else:
-                out = getattr(EoN, name)(G, p, initial_infecteds=list(I0), initial_recovereds=list(R0) or None, tmin=tmin, tmax=tmax)
+                out = getattr(EoN, name)(G, p, initial_infecteds=list(I0), initial_recovereds=list(R0) or None, tmin=tmin, tmax=tmax, **fkw)
+        if full:
+            return rows_from_full(out)
         return tuple(zip(*[np.asarray(a).tolist() for a in out]))
     emp = {}
     tot = 0.0
